@@ -8,19 +8,19 @@ CHECKS = {
    text="JSON configurations built from per-field alphabets (omitted / empty / documented default / other valid / boundary / invalid): the full server x client protocol matrix, all single and pair (thorough: triple) field variations of a rich base document, full products within each section; each is loaded by the real Config.Manager and compared with an independent validity predicate; omitted = empty = documented default is compared on effective values; accepted configurations are started on loopback in worker subprocesses and driven with a fixed smoke script",
    note="only a worker crash is a verdict in the smoke part; seven accepted-then-crashing absurd numeric values (2^62 sizes, 2^40 MTU) are listed as known findings"),
  "C19": dict(engine="vsched", technique=SC+" + exhaustive probe-outcome histories on the virtual clock",
-   text="round-robin under 2-4 concurrent selecting threads (all interleavings at atomic-operation granularity), random with every IntN answer, and availability / latency / min-max-latency groups built through the real AddClientGroup with their real probe loops, tickers and workers on the virtual clock: an optional head round, k filler rounds around the 32/64-slot retention, then all outcome suffixes of a stated depth, asked mid-round and after each round",
+   text="round-robin under 2-4 concurrent selecting threads (all interleavings at atomic-operation granularity), random with every IntN answer, and availability / latency / min-max-latency groups built through the real AddClientGroup with their real probe loops, tickers and workers on the virtual clock: an optional head round, k filler rounds around the 32/64-slot retention, then all outcome suffixes of a stated depth, asked mid-round and after each round; and selections interleaved with the probe loop's switch of the selected client",
    note="TCP groups run the real probe over an in-memory connection; UDP groups swap only the probe function; where the cycle starts is not demanded"),
  "C06": dict(engine="enum", technique=ENUM+" in crash-isolating worker subprocesses",
-   text="38 network-facing entry groups (SOCKS5 address/stream/client-reply parsers, SS-none, HTTP proxy server/client/relay, SS2022 stream server and client incl. malformed headers sealed with the real keys, SS2022 and direct UDP unpackers, DNS parseMsg and Lookup) are fed every string up to length L over each parser's branch constants, every truncation, single (thorough: double) boundary mutation, insertion and deletion of valid seeds; every address a parser yields is pushed through 18 real routers (each criterion representation, incl. source port 0), Abort/Proceed+relay, six outbound request writers and UDP re-packing",
+   text="38 network-facing entry groups (SOCKS5 address/stream/client-reply parsers, SS-none, HTTP proxy server/client/relay, SS2022 stream server and client incl. malformed headers sealed with the real keys, SS2022 and direct UDP unpackers (fresh and with live sessions on both sides, payload sizes around every outbound client's maximum), DNS parseMsg and Lookup) are fed every string up to length L over each parser's branch constants, every truncation, single (thorough: double) boundary mutation, insertion and deletion of valid seeds; every address a parser yields is pushed through 18 real routers (each criterion representation, incl. source port 0), Abort/Proceed+relay, six outbound request writers and UDP re-packing",
    note="the quantifier 'all byte strings' is unbounded: decided on the stated finite sub-space (not coverage-guided fuzzing); GeoIP and TLS servers not exercised"),
  "C01": dict(engine="enum", technique=ENUM,
-   text="complete sessions of the real SS2022 stream client and server over a scripted in-memory transport for the full configuration matrix (ciphers x identity-header depth 0..3 x prefixes incl. >64 KiB x segmented-header allowance x target kinds), boundary initial-payload lengths, write-size sequences, reader modes (Read with 7 buffer shapes, WriteTo, Read-then-WriteTo), writer modes (Write, ReadFrom), every single structural cut and all handshake cut pairs, transport buffer sizes and chained tunnels through three relay loops; oracle = two reference byte queues",
+   text="complete sessions of the real SS2022 stream client and server over a scripted in-memory transport for the full configuration matrix (ciphers x identity-header depth 0..3 x prefixes incl. >64 KiB x segmented-header allowance x target kinds), boundary initial-payload lengths, write-size sequences, reader modes (Read with 7 buffer shapes, WriteTo, Read-then-WriteTo), writer modes (Write, ReadFrom), every single structural cut and all handshake cut pairs, transport buffer sizes and chained tunnels through three relay loops (optionally with a 1440-byte wait Read, a zero-length Read before the response copy, or a relay write before it); oracle = two reference byte queues",
    note="identity-header depths >1 are checked by emulated relay hops (the repository has no relay-side EIH code); wire chunking and padding length are not demanded"),
  "C04": dict(engine="enum", technique=ENUM+" (explicit-state search over ID and packet histories)",
    text="the sliding-window filter for 8 sizes over absolute and relative boundary IDs to depth 5/6 through both APIs against a set-based reference (every node executed on the real filter), and packet histories to depth 4-7 through the real client/server packers and unpackers for both ciphers x identity header on/off with forged, stale, wrong-direction, foreign-session, reflected and old/new/third server-session packets and clock advances on the virtual clock",
    note="zones the statement leaves open (second session within a minute of the very first, change exactly at 60 s, change while old-session packets trickle) follow the code and are counted in the evidence"),
  "C05": dict(engine="enum", technique=ENUM,
-   text="every codec pair (SS2022 with 0..3 identity headers, none, SOCKS5, direct) x every payload length 0..max+2 x address kinds x ports x MTUs x padding policies and extremes x payloadStart positions is packed and unpacked by the real packers; every server x client protocol pair is re-packed in place on a canary-filled buffer with the layout the real service computes; and the real relay is run live on loopback at boundary lengths in both batch modes",
+   text="every codec pair (SS2022 with 0..3 identity headers, none, SOCKS5, direct) x every payload length 0..max+2 x address kinds x ports x MTUs x padding policies and extremes x payloadStart positions is packed and unpacked by the real packers; every server x client protocol pair is re-packed in place on a canary-filled buffer with the layout the real service computes; the real relay is run live on loopback at boundary lengths in both batch modes; and, under the controlled scheduler, with refused + fitting datagram pairs in every receive-batch split and with one session moving from an IPv4 to an IPv6 client address",
    note="addresses compared after Unmap (documented conversion); contents of the front headroom are the packer's to use"),
  "C07": dict(engine="enum", technique=ENUM,
    text="the real SOCKS5, HTTP CONNECT and Shadowsocks-none clients and servers run over a deterministic in-memory connection for every domain length 1..255, boundary and all ports, credential lengths and byte values, method lists of every length, every command byte, every dial-result code, and every single cut (pairs at boundaries) of the handshake bytes; an independent wire parser and a reference decide honoured/refused, reply class and stream transparency",
@@ -30,39 +30,39 @@ CHECKS = {
    note="genuine peer = recorded session with the longest common prefix; delivery up to the tamper point and time windows are C01/C03"),
  "C09": dict(engine="enum", technique=ENUM,
    text="router configurations (full products of criterion kinds absent/present/inverted over a small universe, every port representation, route lists: all ordered pairs and triples of a 12-route core x defaults) rendered as JSON, loaded by the real Config.Router and queried through the real GetTCPClient/GetUDPClient with boundary requests and scripted resolvers; a reference returns the set of permitted outcomes",
-   note="GeoIP criteria cannot be exercised (no database in the image); reference leaves evaluation order and error values open"),
+   note="GeoIP criteria cannot be exercised (no database in the image); client maps of different sizes included; reference leaves evaluation order and error values open"),
  "C10": dict(engine="enum", technique=ENUM+" (differential across representations)",
-   text="rule sets over a 4-label vocabulary in every insertion order, threshold-straddling sets, 120 text variants x 28 conversion paths, ~30 direct matcher representations and the real converter command; all 65535 ports per port set across bit set / range list / single port / router criteria; all subsets of a prefix vocabulary through text round trips - every representation must agree with the reference on every probe",
+   text="rule sets over a 4-label vocabulary in every insertion order, threshold-straddling sets, 120 text variants x 28 conversion paths, ~30 direct matcher representations and the real converter command; all 65535 ports per port set across bit set / range list / single port / router criteria; all subsets of a prefix vocabulary and generated sets of 9k-20k prefixes (text forms beyond the writer's 128 KiB buffer) through text round trips - every representation must agree with the reference on every probe",
    note="text form may refuse the empty set / empty rule; port 0 is never probed (PortSet.Contains(0) panics by contract)"),
  "C17": dict(engine="vsched", technique=SC+" + explicit-state search of the bounded cache to fixpoint",
    text="the real dns.Resolver runs under the controlled scheduler with a real direct UDP client on loopback and a stub TCP client against a scripted upstream: every script with up to two non-default behaviours per lookup (valid, NXDOMAIN+SOA, NODATA+SOA, SERVFAIL, truncated, foreign ID, foreign source, not-a-response, RA=0, garbage, silence, TCP close mid-message), both arrival orders, UDP/TCP/both; lookup histories around TTL and failure-caching boundaries on the virtual clock; BoundedCache against a reference LRU to fixpoint",
    note="poisoned datagrams carry addresses no acceptable response carries; expiry bound from the statement (smallest answer TTL, else negative/failure caching time)"),
  "C12": dict(engine="vsched", technique=SC+" over real loopback sockets with scheduler-mediated readiness and virtual NAT timers",
-   text="idle eviction and restart, a packet racing with the NAT timeout, Stop with packets in flight, Stop during session initialisation, router rejection, failing sends (EPERM as an environment deviation) and two sessions are explored on the real relay services within a delay bound; oracles: no panic, no deadlock, table and sockets released after eviction, a new working session afterwards, and Stop returns with all NAT timers frozen, every relay goroutine ended and every relay socket closed",
+   text="idle eviction and restart, a packet racing with the NAT timeout, Stop with packets in flight, Stop during session initialisation, router rejection, failing sends at initialisation and on an established session (EPERM as an environment deviation), an unsendable destination, two sessions, two clients that both idle out and return, and further datagrams of a session being torn down are explored on the real relay services (none, socks5, ss2022 single- and multi-user, direct; both batch modes) within a delay bound; oracles: no panic, no deadlock, table and sockets released after eviction, a new working session afterwards, and Stop returns with all NAT timers frozen, every relay goroutine ended and every relay socket closed",
    note="timers fire at quiescence, in either order when due at the same instant; promptness = Stop completes with timers later than 1 s frozen"),
  "C11": dict(engine="vsched", technique=SC+" over real loopback sockets with scheduler-mediated readiness",
-   text="the real UDP relay services (built from JSON through service.Config.Manager; NAT and session relays, generic and recvmmsg/sendmmsg paths) run on real loopback sockets under the controlled scheduler; every interleaving within a delay bound of the relay threads, 2-3 concurrent sessions to IP and domain targets (resolver lookups are scheduling points; shared packer objects get access points), a garbage datagram and a client address change is executed and checked for destination, payload, reply ownership and true source",
-   note="loopback delivery synchronous with sendto; outgoing client = direct client; timers fire only at quiescence in this check (timeouts are C12)"),
+   text="the real UDP relay services (built from JSON through service.Config.Manager; NAT and session relays, generic and recvmmsg/sendmmsg paths) run on real loopback sockets under the controlled scheduler; every interleaving within a delay bound of the relay threads, 2-3 concurrent sessions to IP and domain targets (resolver lookups are scheduling points; shared packer objects get access points), garbage datagrams, a client address change, clients behind one IP, oversize replies, failing lookups, a wildcard listener reached through two local addresses, a multi-user ss2022 server, outgoing none/ss2022 clients towards a harness upstream proxy, and one session talking to two ports of one host name is executed and checked for destination, payload, reply ownership and true source",
+   note="every send ends with a delivery barrier; timers fire only at quiescence in this check (timeouts are C12)"),
  "C16": dict(engine="vsched", technique=SC,
-   text="the real httpproxy.ServerHandle + Proceed (request/response forwarder goroutines over the real in-memory pipe) run under the controlled scheduler between a scripted client and origin; every interleaving within a delay bound is executed for each scripted exchange list and the messages parsed on both sides are compared (method, target, end-to-end fields, bodies, trailers, order, 1xx, connection endings, auth gating)",
+   text="the real httpproxy.ServerHandle + Proceed (request/response forwarder goroutines over the real in-memory pipe) run under the controlled scheduler between a scripted client and origin; every interleaving within a delay bound is executed for each scripted exchange list and the messages parsed on both sides are compared (method, target, end-to-end fields, bodies, trailers, order, 1xx, connection endings, auth gating incl. authentication enabled without users; a forwarded request's response must be accepted from the origin while the client waits)",
    note="origin attached directly to the pipe end; comparison after parsing with net/http on both sides; finite script family listed in evidence"),
  "C13": dict(engine="vsched", technique=SC,
-   text="the real TCPRelay.handleConn runs over scheduler-aware in-memory connections with real protocol servers (tunnel, SOCKS5, SS2022, HTTP CONNECT, SS-none) in front, the real router and a recording outgoing client; every interleaving within a deviation bound (incl. the 250 ms initial-payload timer landing early or late) of client, relay, copy goroutine and target is executed and checked for target/payload fidelity, failure replies, mirrored half-closes and statistics",
+   text="the real TCPRelay.handleConn runs over scheduler-aware in-memory connections with real protocol servers (tunnel, SOCKS5, SS2022 single-user / multi-user / with unsafe fallback, HTTP CONNECT, SS-none) in front, the real router and either a recording outgoing client or a real chained http / socks5 / ss2022 client talking to the real server of its protocol; every interleaving within a deviation bound (incl. the 250 ms initial-payload timer landing early or late) of client, relay, copy goroutine and target is executed and checked for target/payload fidelity, failure replies, mirrored half-closes and statistics",
    note="handleConn parameter widened to netio.Conn by the overlay; only listener settings the service can produce are explored"),
  "C08": dict(engine="vsched", technique="explicit-state enumeration of operation histories (each run on the controlled scheduler with the virtual clock) + stateless model checking of concurrent operations, oracle through real TCP/UDP handshakes",
    text="every history to a stated depth over add/update/delete/edit-and-reload/reload on 2 users x 3 keys, and every interleaving within a deviation bound of 2-3 concurrent operations, with the accepted-key set (real SS2022 TCP handshake and UDP first packet, with attribution), the listed set and the saved file compared at every quiescent state",
    note="sequential consistency; scheduling points at synchronisation operations only"),
  "C20": dict(engine="vsched", category="model_checking", technique="exhaustive crash-point / write-fault enumeration over the logged file operations of the real save + stateless model checking of the debounce/shutdown protocol",
-   text="every crash point (each prefix of the save's file-operation log x each byte count of each write) and each ENOSPC position, for stores of 0..N users and each kind of change, is materialised and restarted through the real loader; every interleaving within a deviation bound of change/debounce/cancel/Stop at each shutdown phase",
+   text="every crash point (each prefix of the save's file-operation log x each byte count of each write) and each ENOSPC position, for stores of 0..N users and each kind of change, is materialised and restarted through the real loader, and life goes on in the crash image (one more change, save, restart); every interleaving within a deviation bound of change/debounce/cancel/Stop at each shutdown phase",
    note="crash = process kill (no power-loss reordering); file operations of package cred are routed through verif/shim/vos by the overlay"),
  "C03": dict(engine="vsched", technique="explicit-state enumeration of handshake histories on a virtual clock (every transition a real HandleStream call) + stateless model checking of concurrent presentations",
-   text="every history to a stated depth over boundary clock advances, client skews, replays and altered copies is run on a fresh real server and compared with the at-most-once/timestamp reference; every interleaving within a deviation bound of k concurrent presentations of one request",
+   text="every history to a stated depth over boundary clock advances, client skews, replays, altered copies and held connections (request delivered 29/31/61 s after the connection opened) is run on a fresh real server and compared with the at-most-once/timestamp reference; every interleaving within a deviation bound of k concurrent presentations of one request",
    note="virtual clock injected through the overlay; single-user aes-128 server (salt pool and timestamp rule are cipher independent)"),
  "C14": dict(engine="vsched", technique=SC+" + explicit-state search over API request histories",
-   text="all interleavings within a deviation bound of concurrent Collect* calls with Snapshot/SnapshotAndReset on the real collector (conservation of every counter per user across successive snapshots), and every API request history to a stated depth through the real ssm handlers against a reference model",
-   note="sequential consistency; finite scenario list and alphabet stated in evidence"),
+   text="all interleavings within a deviation bound of concurrent Collect* calls with Snapshot/SnapshotAndReset on the real collector (conservation of every counter per user across successive snapshots), every API request history to a stated depth through the real ssm handlers against a reference model, and the recording sites: the real TCP relay (scenario family shared with C13) and the real UDP relays (all protocols incl. multi-user, both batch modes, with and without a backlog at Stop) run under the scheduler with a real collector whose figures are compared with the bytes the harness saw delivered",
+   note="sequential consistency; finite scenario list and alphabet stated in evidence; pool objects are scribbled over on Put so that reads after Put show"),
  "C15": dict(engine="vsched", technique=SC,
-   text="every interleaving (scheduling points at each mutex, atomic, channel, select, once and timer operation) of 3-7 threads on one real PipeConn pair, within a stated preemption/delay bound, is executed on the implementation and checked against a byte-stream reference",
+   text="every interleaving (scheduling points at each mutex, atomic, channel, select, once and timer operation) of 3-7 threads on one real PipeConn pair, within a stated preemption/delay bound, is executed on the implementation and checked against a byte-stream reference; plus every sequence of 1..3 deadline changes {none, past, +1 s} against an already pending Read / WriteTo / Write",
    note="sequential consistency; schedule space bounded by deviations (bound reported per scenario); scenario family is finite and listed in evidence"),
 }
 NA = {}
